@@ -149,6 +149,7 @@ func (c *SConn) SetWriteDeadline(t time.Time) error { return nil }
 // SListener hands pre-registered and later-injected connections to Serve.
 type SListener struct {
 	queue  []net.Conn
+	fail   error // the next Accept returns this error once (environment fault)
 	closed bool
 	Closes int
 	mu     sync.Mutex
@@ -157,7 +158,7 @@ type SListener struct {
 func NewSListener(conns ...net.Conn) *SListener { return &SListener{queue: conns} }
 
 //go:norace
-func (l *SListener) ready() bool { return len(l.queue) > 0 || l.closed }
+func (l *SListener) ready() bool { return len(l.queue) > 0 || l.closed || l.fail != nil }
 
 //go:norace
 func (l *SListener) Accept() (net.Conn, error) {
@@ -173,6 +174,11 @@ func (l *SListener) Accept() (net.Conn, error) {
 	}
 	if l.closed {
 		return nil, net.ErrClosed
+	}
+	if l.fail != nil {
+		err := l.fail
+		l.fail = nil
+		return nil, err
 	}
 	c := l.queue[0]
 	l.queue = l.queue[1:]
@@ -199,6 +205,14 @@ func (l *SListener) Inject(c net.Conn) {
 		defer l.mu.Unlock()
 	}
 	l.queue = append(l.queue, c)
+}
+
+// FailAccept makes the next Accept return err (e.g. "too many open files").
+//
+//go:norace
+func (l *SListener) FailAccept(err error) {
+	point("env.accept-fault", unsafe.Pointer(l), nil)
+	l.fail = err
 }
 
 func (l *SListener) Addr() net.Addr { return Addr("mem:listener") }
